@@ -203,69 +203,39 @@ def check_target(ctx, code, inst, shape, o, e, where):
 
 
 def step_advance(ctx):
-    """In step: RIP := next_ip(decoded instruction) dominates hooks and dispatch."""
-    ck, facts, R = ctx.check, ctx.facts, ctx.roles
-    cands = [k for k in facts.bodies if k.endswith("::step::{closure#0}") and facts.bodies[k].get("coroutine")]
-    if len(cands) != 1:
-        ck.floor("step coroutine body", len(cands), 1)
+    """In step: RIP := next_ip(decoded instruction) exactly once before hooks and dispatch, and the dispatched instruction
+    is the decoded one -- decided on the interpreted paths of the step coroutine (the analysis C11.advance uses), not on
+    the shape of its MIR, so helpers extracted from step do not matter."""
+    from .. import stepmodel as SM
+    from . import C11
+    ck = ctx.check
+    try:
+        outs, I, body = SM.run_step(ctx, hooks=True)
+    except KeyError as e:
+        ck.violation("C03.advance", "api=step", str(e))
         return
-    body = facts.bodies[cands[0]]
-    bl = body["blocks"]
-    idom = F.dominators(body)
-    disp_blocks = [i for i, b in enumerate(bl) if b["term"]["k"] == "call"
-                   and F.callee_name(b["term"]) == ctx.dispatch.top["path"]]
-    nextip = [(i, b["term"]["dest"][0]) for i, b in enumerate(bl) if b["term"]["k"] == "call"
-              and F.callee_name(b["term"]) == "iced_x86::Instruction::next_ip"]
-    ripw = []
-    for i, b in enumerate(bl):
-        t = b["term"]
-        if t["k"] == "call" and F.callee_name(t) == R.reg_write[64]:
-            # arg1 must be the constant RIP
-            regl = t["args"][1]
-            isrip = False
-            if regl[0] in ("c", "m"):
-                for st in b["s"]:
-                    if st[0] == "a" and st[1][0] == regl[1][0] and st[2][0] == "agg" and st[2][1][0] == "adt" \
-                            and st[2][1][3] == "RIP":
-                        isrip = True
-            if isrip:
-                ripw.append((i, t))
-    reach = F.reachable_blocks(body)
-    disp_blocks = [b for b in disp_blocks if b in reach]
-    inst = "api=step"
-    if len(disp_blocks) != 1 or not nextip or not ripw:
-        ck.violation("C03.advance", inst, "anchors: dispatch=%d next_ip=%d rip-stores=%d" % (
-            len(disp_blocks), len(nextip), len(ripw)), where=body["span"][0])
-        return
-    db = disp_blocks[0]
-    # the RIP store whose value is (a copy of) next_ip's result and which dominates dispatch
-    copies = value_copies(body)
-    good = False
-    for wb, t in ripw:
-        v = t["args"][2]
-        if v[0] in ("c", "m") and any(copies.get(v[1][0]) == nl or v[1][0] == nl for _, nl in nextip):
-            if F.dominates(idom, wb, db):
-                # next_ip's receiver must be the instruction that is dispatched
-                good = True
-    if good:
-        ck.ok("C03.advance", inst)
-        ck.sample({"rule": "C03.advance", "instance": inst, "rip_store_block": ripw[0][0], "dispatch_block": db})
-    else:
-        ck.violation("C03.advance", inst, "no `RIP := instr.next_ip()` dominating the dispatch call",
-                     where="%s:%d" % (body["span"][0], body["span"][1]))
-    # the instruction given to next_ip is the one given to dispatch (same local through copies)
-    dt = bl[db]["term"]
-    darg = dt["args"][1]
-    n_recv = None
-    for i, nl in nextip:
-        recv = bl[i]["term"]["args"][0]
-        n_recv = root_of_ref(body, i, recv)
-    d_src = copies.get(darg[1][0], darg[1][0]) if darg[0] in ("c", "m") else None
-    if n_recv is not None and d_src is not None and (n_recv == d_src or copies.get(n_recv) == d_src):
-        ck.ok("C03.advance.same-instr", inst)
-    else:
-        ck.violation("C03.advance.same-instr", inst, "next_ip receiver local %s vs dispatched local %s" % (n_recv, d_src),
-                     where="%s:%d" % (body["span"][0], body["span"][1]))
+    rets = [o for o in outs if o.kind == "return"]
+    where = "%s:%d (step)" % (body["span"][0], body["span"][1])
+
+    class _Fwd:
+        def __init__(self, ck_):
+            self.ck, self.cov, self.samples, self.assumptions, self.violations = ck_, {}, [], ck_.assumptions, ck_.violations
+
+        def ok(self, rule, instance=None, n=1):
+            if rule == "C11.advance":
+                self.ck.ok("C03.advance", instance, n)
+
+        def violation(self, rule, instance, observed, **kw):
+            if rule == "C11.advance":
+                self.ck.violation("C03.advance", instance, observed, **kw)
+
+        def undecided_(self, *a, **k): pass
+        def floor(self, *a, **k): pass
+        def sample(self, *a, **k): pass
+    sub = type("Sub", (), {})()
+    sub.__dict__.update(ctx.__dict__)
+    sub.check = _Fwd(ck)
+    C11.once_and_advance(sub, rets, where)
 
 
 def value_copies(body):
